@@ -82,6 +82,15 @@ def main() -> int:
     except BaseException as exc:  # pylint: disable=broad-except
         out['state'] = 'crash'
         out['message'] = f'{type(exc).__name__}: {exc}'
+    try:
+        if out['state'] in ('post_fail', 'exec_err', 'post_err') and len(sys.argv) > 5:
+            from vf import fast
+            if fast.HISTORY:
+                with open(sys.argv[5], 'w', encoding='utf-8') as fh:
+                    json.dump({'complete': fast.HISTORY_OK[0], 'calls': fast.HISTORY[-20000:]}, fh)
+                out['history'] = sys.argv[5]
+    except Exception:  # pylint: disable=broad-except
+        pass
     out['cpu_s'] = round(time.process_time() - t0, 2)
     sys.stdout.write('\n@@XH@@' + json.dumps(out) + '\n')
     sys.stdout.flush()
